@@ -30,3 +30,18 @@ package prom
 //@              !(res.Error != "" && c == child4(pm.requestFailCounter, res.Method, res.URL, fmtint(res.Code, 10), res.Error))
 //@              ==> cval(c) == old(cval(c))
 //@   ensures [other-histograms-untouched] forall c ref :: c != child3(pm.requestLatencyHistogram, res.Method, res.URL, fmtint(res.Code, 10)) ==> hcount(c) == old(hcount(c)) && hsum(c) == old(hsum(c))
+
+// Register: all four collectors are offered to the registry, and a refusal by the registry is always
+// reported (a collector the registry did not accept would silently export nothing).
+//@ func (*Metrics).Register
+//@   property C20
+//@   returns (err)
+//@   requires [non-nil] pm != nil && r != nil
+//@   ghost offered int = 0
+//@   ghost refused bool = false
+//@   at call Register: ghost offered = offered + 1 ; ghost refused = refused || result != nil
+//@   ensures [a-refusal-is-reported] refused ==> err != nil
+//@   ensures [all-four-collectors-registered] err == nil ==> offered == 4
+//@   loop 1
+//@     invariant -1 <= rangeindex && rangeindex < 4 && offered == rangeindex + 1 && !refused
+//@     decreases 4 - rangeindex
